@@ -187,6 +187,7 @@ def check_read_sites(F, rep):
     p1 = T.param(1)
     n_open = n_query = 0
     OPEN = {"elf_stream::ElfStream::open_stream", "elf_stream::parse_section_headers", "elf_stream::parse_program_headers"}
+    BASE_OPEN = frozenset(OPEN)
     # private helpers that only the opening functions call read on their behalf
     from ..engine import program
     prog = program(F)
@@ -204,10 +205,21 @@ def check_read_sites(F, rep):
             if q_ not in OPEN and not prog.known_name(fn_) and fn_["kind"] != "Closure" and callers.get(q_) and callers[q_] <= OPEN:
                 OPEN.add(q_)
                 grew = True
+    RB = "elf_stream::CachingReader::read_bytes"
+    # private helpers (of any type in the module) that contain a read site: their call sites are read sites of the caller as well
+    reading = {fn_["qual"] for fn_ in stream_fns(F) if fn_["qual"] != RB and not prog.known_name(fn_) and fn_["kind"] != "Closure"
+               and any(c_.callee_qual in (RB, "elf_stream::CachingReader::load_bytes") for c_ in analyze_fn(F, fn_).calls())}
     for fn in stream_fns(F):
-        if fn["qual"].startswith("elf_stream::CachingReader::"):
-            continue
         an = analyze_fn(F, fn)
+        if fn["qual"] == RB:
+            # read_bytes(start, end) itself: loads exactly the range it was asked for
+            lbs = [c_ for c_ in an.calls() if c_.callee_qual == "elf_stream::CachingReader::load_bytes"]
+            want_r = T.agg("adt", "ops::Range", 0, "Range", [T.param(2), T.param(3)])
+            rep.require(len(lbs) == 1 and lbs[0].args[1] is want_r, "lazy-read-site", RB + "|load_bytes", wh(fn["span"]), "read_bytes(start, end) loads start..end",
+                        "read_bytes loads %s, not the range start..end it was asked for" % [pp(c_.args[1])[:120] for c_ in lbs])
+            continue
+        if fn["qual"] not in OPEN:
+            n_query += sum(1 for c_ in an.calls() if (prog.local_fn(c_.callee) or {}).get("qual") in reading)
         for cs in an.calls():
             if cs.callee_qual == "elf_stream::CachingReader::read_bytes":
                 start, end = cs.args[1], cs.args[2]
@@ -223,12 +235,59 @@ def check_read_sites(F, rep):
             if fn["qual"] in OPEN:
                 n_open += 1
                 ok, why = open_site_ok(an, start, end)
+                if not ok and fn["qual"] not in BASE_OPEN:
+                    # a private helper of the opening functions (`read_shdr0(ehdr, reader, shoff)`): the range it reads is judged with
+                    # its parameters bound to what each of its callers passes
+                    from ..engine import State
+                    res = []
+                    for cq in sorted(callers.get(fn["qual"], ())):
+                        can = analyze_fn(F, F.fn(cq))
+                        for c in can.calls():
+                            if prog.local_fn(c.callee) is not None and prog.local_fn(c.callee)["qual"] == fn["qual"] and c.block in can.entry:
+                                stc = State(can.exit_env.get(c.block, {}), c.facts)
+                                try:
+                                    s2, e2 = prog.subst(can, stc, start, c.arg_values()), prog.subst(can, stc, end, c.arg_values())
+                                except KeyError:
+                                    s2 = e2 = None
+                                res.append(open_site_ok(can, s2, e2) if s2 is not None and e2 is not None else (False, "arguments of the call in %s not expressible" % cq))
+                    if res and all(o for o, _ in res):
+                        ok, why = True, "; ".join(sorted({y for _, y in res})) + " (with the arguments of each of its %d call sites)" % len(res)
             else:
                 n_query += 1
                 ok, why = query_site_ok(start, end)
+                if not ok:
+                    # the range may be a merge of the ranges of several headers (`let range = if .. {shdr range} else {phdr range}`):
+                    # judge the value it has on each path through the function that reaches this read
+                    vals = site_values(an, cs, (start, end))
+                    if vals:
+                        res = [query_site_ok(s_, e_) for s_, e_ in vals]
+                        if all(o for o, _ in res):
+                            ok, why = True, "; ".join(sorted({y for _, y in res})) + " (on each of %d paths)" % len(vals)
             rep.require(ok, "lazy-read-site", key, cs.where(), why, "%s reads [%s, %s): %s" % (fn["qual"], pp(start)[:120], pp(end)[:120], why))
     rep.floor("lazy-read-site", "read sites while opening", n_open, 4)     # 6 on the pinned tree; sharing the shdr[0] read between the two table parsers leaves 4-5
     rep.floor("lazy-read-site", "read sites in queries", n_query, 14)
+
+
+def site_values(an, cs, terms):
+    """the distinct values the argument terms of call site cs take along the acyclic paths of the function (None: not enumerable)"""
+    ps = an.paths()
+    if ps is None:
+        return None
+    idx = [i for i, a in enumerate(cs.args) for t in terms if a is t]
+    out = []
+    for _, st, calls in ps:
+        for c in calls:
+            if c.block == cs.block and c.callee_qual == cs.callee_qual:
+                if cs.callee_qual.endswith("load_bytes"):
+                    r = an.simp(c.args[1], st.facts)
+                    v = tuple(r.args[4]) if r.op == "agg" else None
+                else:
+                    v = (an.simp(c.args[1], st.facts), an.simp(c.args[2], st.facts))
+                if v is None:
+                    return None
+                if v not in out:
+                    out.append(v)
+    return out
 
 
 def query_site_ok(start, end):
